@@ -200,10 +200,17 @@ def batchExpired (h : Nat) (b : Batch) : Bool := batchCleanupCancels && batchCle
 /-- `cleanupTimedOutBatches` -/
 def cleanupBatches (s : State) : State := cancelBatches (batchExpired (heightOf batchCleanupSrc s)) s
 
+/-- the account `HandleOutgoingBridgeCallRefund` pays (read from the source): the record's refund address or its sender -/
+def callRefundTo (c : Call) : Addr :=
+  match callRefundReceiver with
+  | .refund => c.refund
+  | .sender => c.sender
+  | .unknown => c.refund
+
 /-- `HandleOutgoingBridgeCallRefund` + `DeleteOutgoingBridgeCallRecord` bookkeeping for one record -/
 def refundCall (s : State) (c : Call) : State :=
-  { s with bal := if callCleanupRefunds then creditAll c.refund c.tokens s.bal else s.bal,
-           settled := s.settled ++ [⟨true, c.nonce, .refunded, c.refund, c.tokens⟩] }
+  { s with bal := if callCleanupRefunds then creditAll (callRefundTo c) c.tokens s.bal else s.bal,
+           settled := s.settled ++ [⟨true, c.nonce, .refunded, callRefundTo c, c.tokens⟩] }
 
 def callStops (h : Nat) (c : Call) : Bool := callCleanupStopCmp.eval c.timeout h
 
@@ -257,7 +264,8 @@ def doIncFee (s : State) (id : Nat) (who : Addr) (token : Token) (add : Nat) : S
   match s.pool.find? (fun t => t.id = id) with
   | none => (s, .err)
   | some tx =>
-    if ¬ token < s.nTokens ∨ tx.token ≠ token ∨ getBal s.bal (incFeePayerOf tx who, token) < add then (s, .err)
+    if ¬ token < s.nTokens ∨ (incFeeTokenCheck = true ∧ tx.token ≠ token) ∨
+        getBal s.bal (incFeePayerOf tx who, token) < add then (s, .err)
     else
       ({ s with pool := insertDesc { tx with fee := tx.fee + add } (s.pool.erase tx),
                 bal := subBal s.bal (incFeePayerOf tx who, token) add }, .ok 0)
@@ -345,8 +353,24 @@ def doObserveStd (s : State) (h : Nat) (ev : Ev) : State × Res :=
   | none => (s, .panic)
   | some s2 => (cleanupCalls (cleanupBatches s2), .ok s1.eventNonce)
 
-/-- `ExecuteClaim` for bridge-call result claims (`BridgeCallResultHandler`) -/
+/-- `ExecuteClaim` for bridge-call result claims (`BridgeCallResultHandler`): whether the record is refunded and whether
+it is deleted, per outcome, is read from the source (`resultRefundsOn…`, `resultDeletesOn…`) -/
 def doExec (s : State) (n : Nat) : State × Res :=
+  match s.pending.find? (fun p => p.1 = n) with
+  | none => (s, .err)
+  | some p =>
+    match s.calls.find? (fun c => c.nonce = p.2.1) with
+    | none => (s, .panic)
+    | some c =>
+      let refunds := if p.2.2 then resultRefundsOnSuccess else resultRefundsOnFailure
+      let deletes := if p.2.2 then resultDeletesOnSuccess else resultDeletesOnFailure
+      let s1 := { s with pending := s.pending.erase p, calls := if deletes then s.calls.erase c else s.calls }
+      if refunds then (refundCall s1 c, .ok 0)
+      else if p.2.2 then ({ s1 with settled := s1.settled ++ [⟨true, c.nonce, .executed, 0, c.tokens⟩] }, .ok 0)
+      else (s1, .ok 0)
+
+/-- the same with the refund / delete pattern the source has now (see `Proofs.C05.doExec_eq`) -/
+def doExecStd (s : State) (n : Nat) : State × Res :=
   match s.pending.find? (fun p => p.1 = n) with
   | none => (s, .err)
   | some p =>
